@@ -155,6 +155,28 @@ func TestC09(t *testing.T) {
 						go func() { defer wg.Done(); addErr(pr.dialOnce(side, id)) }()
 					}
 					wg.Wait()
+				case "late-accept-during-other-knock":
+					// (multiplexing) a dial to id A that nobody answers times out; a dial to another id B (nobody
+					// answers either) is in flight when the other side accepts A late: the ack for A arrives while
+					// the dialler is waiting for B's
+					addErr("dialA: " + pr.dialOnce(side, id))
+					idB := nextID()
+					var wg sync.WaitGroup
+					wg.Add(1)
+					go func() { defer wg.Done(); addErr("dialB: " + pr.dialOnce(side, idB)) }()
+					time.Sleep(1500 * time.Millisecond)
+					b := pr.hostGRPC
+					if other(side) == "plugin" {
+						b = pr.plugGRPC
+					}
+					h := vp.GRPCAcceptServe(b, id, "late")
+					wg.Wait()
+					h.Stop()
+					select {
+					case <-h.Done:
+					case <-time.After(brokerH):
+						s.Note = "AcceptAndServe did not return after its server was stopped"
+					}
 				case "dial-timeout-then-accept-twice":
 					// (gRPC, no multiplexing) a dial that nobody answers times out; then the other side announces
 					// that id twice in a row and nobody dials it any more
